@@ -62,6 +62,31 @@ def gen_abstract(p):
          ("NULL", "", "-999.25", "null value"), ("WELL", "", "my well 7", "the well name"), ("UWI", "", "0012345", "id")]
     C = lasgen.std_curves(d)
     P = [("P1", "U", "3.5", "a parameter"), ("P2", "", "text value", "another one")]
+    secs = {"V": V, "W": W, "C": C, "P": P}
+    mut = p.get("mut")
+    if mut:
+        kind, sec, idx = mut[0], mut[1], mut[2]
+        items = secs[sec]
+        if idx < len(items):
+            mn, un, va, de = items[idx]
+            if kind == "dup":
+                items.insert(idx + 1, (mn, un, va, de))
+            elif kind == "dup_end":
+                items.append((mn, un, va, de))
+            elif kind == "blank":
+                items[idx] = ("", un.replace(".", ""), va.replace(".", ""), de.replace(".", ""))
+            elif kind == "unit":
+                items[idx] = (mn, mut[3], va, de)
+            elif kind == "empty":
+                items[idx] = (mn, un, "", de)
+            elif kind == "long_value":
+                items[idx] = (mn, un, va + " " + "v" * 40, de)
+            elif kind == "long_descr":
+                items[idx] = (mn, un, va, de + " " + "d" * 60)
+            elif kind == "long_mnemonic":
+                items[idx] = (mn + "LONGLONGLONG", un, va, de)
+            elif kind == "case":
+                items[idx] = (mn.lower(), un, va, de)
     cells = []
     for i in range(r):
         row = []
